@@ -19,7 +19,7 @@ Property oracle on the real code alone (ctx.violation), for every operation on a
       session had; strict (detached) -> DatabaseSessionIsOver;
   R5  obj.flush() with something pending: DatabaseSessionIsOver.
 """
-import os, sqlite3, json, itertools, threading
+import os, re, sqlite3, json, itertools, threading
 
 from pony.orm import Database, Required, Optional, Set, PrimaryKey, Json, db_session, commit, rollback, flush
 from pony.orm import core
@@ -632,6 +632,91 @@ def two_sessions(ctx, E, scripts):
                                               observed=err or 'no error', expected='DatabaseSessionIsOver', key='two-sessions:%s:%s' % (name, err or 'no-error'))
 
 
+def stale_arguments(ctx, E, scripts, pending, per_entity=2):
+    """objects of a FINISHED session used as arguments of operations on LIVE objects of another session: bare instance and inside
+    list / set / tuple, for add / remove / += / -= / assignment / set() / constructor keyword / create(), for every relationship kind.
+    Every call must raise, must leave the finished session's snapshot and the database unchanged; the model (Op.staleArg) says
+    TransactionError('An attempt to mix objects belonging to different transactions').  Each call runs in its own live db_session."""
+    G, I, T, S, O = E.G, E.I, E.T, E.S, E.O
+    def live_of(ent):
+        return {G: lambda: G[2], I: lambda: I[3], T: lambda: T[2], O: lambda: O[1], S: lambda: G[3]}[ent]()
+    def shapes(x): return [('bare', x), ('list', [x]), ('set', {x}), ('tuple', (x,))]
+    for script in scripts:
+        if script[0] == 'failed_flush': continue
+        for strict in (False, True):
+            A, _ = run_session(E, script, 'commit', strict)
+            seen = {}
+            for s_i, st in enumerate(A.objs):
+                if st._pkval_ is None: continue
+                n = seen.get(type(st), 0)
+                if n >= per_entity: continue
+                seen[type(st)] = n + 1
+                calls = []       # (label, callable executed inside a fresh live session)
+                for ent in (G, I, T, O):
+                    for attr in ent._attrs_:
+                        if not attr.reverse or attr.is_discriminator or not isinstance(st, attr.py_type): continue
+                        if attr.is_collection:
+                            for sh, x in shapes(st):
+                                calls.append(('%s.%s.add(%s)' % (ent.__name__, attr.name, sh), lambda ent=ent, attr=attr, x=x: getattr(live_of(ent), attr.name).add(x)))
+                                calls.append(('%s.%s.remove(%s)' % (ent.__name__, attr.name, sh), lambda ent=ent, attr=attr, x=x: getattr(live_of(ent), attr.name).remove(x)))
+                                calls.append(('%s.%s = %s' % (ent.__name__, attr.name, sh), lambda ent=ent, attr=attr, x=x: setattr(live_of(ent), attr.name, x)))
+                                calls.append(('%s.%s += %s' % (ent.__name__, attr.name, sh), lambda ent=ent, attr=attr, x=x: getattr(live_of(ent), attr.name).__iadd__(x)))
+                                calls.append(('%s.set(%s=%s)' % (ent.__name__, attr.name, sh), lambda ent=ent, attr=attr, x=x: live_of(ent).set(**{attr.name: x})))
+                                calls.append(('%s(%s=%s)' % (ent.__name__, attr.name, sh), lambda ent=ent, attr=attr, x=x: new_object(E, ent, {attr.name: x})))
+                        else:
+                            calls.append(('%s.%s = bare' % (ent.__name__, attr.name), lambda ent=ent, attr=attr: setattr(live_of(ent), attr.name, st)))
+                            calls.append(('%s.set(%s=bare)' % (ent.__name__, attr.name), lambda ent=ent, attr=attr: live_of(ent).set(**{attr.name: st})))
+                            calls.append(('%s(%s=bare)' % (ent.__name__, attr.name), lambda ent=ent, attr=attr: new_object(E, ent, {attr.name: st})))
+                        # create() on a live collection whose item entity has this relationship attribute
+                        for cattr in [a for e2 in (G, I, T, O) for a in e2._attrs_ if a.is_collection and a.py_type is ent and a.reverse is not attr]:
+                            val = [st] if attr.is_collection else st
+                            calls.append(('%s.%s.create(%s=%s)' % (cattr.entity.__name__, cattr.name, attr.name, 'list' if attr.is_collection else 'bare'),
+                                          lambda cattr=cattr, attr=attr, val=val: getattr(live_of(cattr.entity), cattr.name).create(**dict(required_kwargs(cattr.py_type, skip=(cattr.reverse.name, attr.name)), **{attr.name: val}))))
+                for label, f in calls:
+                    pre = canon_world(A.snapshot()); xpre = A.extra(); dump_pre = E.dump(); m = E.tr.mark()
+                    err = None; msg = ''
+                    try:
+                        with db_session: f()
+                    except BaseException as e:
+                        err = type(e).__name__; msg = str(e)
+                        if core.local.db2cache:
+                            try: core.rollback()
+                            except Exception: pass
+                    events = E.tr.db_events(E.tr.since(m))
+                    post = canon_world(A.snapshot()); xpost = A.extra(); dump_post = E.dump()
+                    inp = {'script': script[0], 'strict': strict, 'stale': '%s (%s)' % (type(st).__name__, st._status_), 'call': 'live ' + label, 'stale_argument': True}
+                    ctx.case(['stale-arg', script[0], strict, type(st).__name__, st._status_, label], kind='stale-arg:' + label.split('(')[0].split('=')[0].strip().split('.')[-1])
+                    ctx.count('stale-arg-outcome:' + (err or 'no-error'))
+                    writes = [e for e in events if e['call'] in ('execute', 'executemany') and e['kind'] in WRITE_KINDS]
+                    key_call = re.sub(r'^\w+\.', '', label)
+                    if err is None:
+                        ctx.violation('an object of a finished session was accepted as an argument of an operation on a live object of another session',
+                                      inp, observed='no exception', expected='TransactionError (mix objects belonging to different transactions)', key='stale-arg:accepted:' + key_call)
+                    elif err not in ('TransactionError', 'OperationWithDeletedObjectError', 'DatabaseSessionIsOver'):
+                        ctx.violation('an object of a finished session used as an argument of an operation on a live object raised %s' % err, inp,
+                                      observed=err + ': ' + msg[:120], expected='TransactionError (mix objects belonging to different transactions)', key='stale-arg:%s:%s' % (err, key_call))
+                    if strip_rbits(post) != strip_rbits(pre) or xpre != xpost:
+                        ctx.violation('an operation on a live object changed the snapshot of the finished session its argument came from', inp,
+                                      observed=diff_worlds(pre, post), expected='unchanged', key='stale-arg:snapshot-changed:' + key_call)
+                    if writes or dump_pre != dump_post:
+                        ctx.violation('an operation on a live object with an argument of a finished session wrote to the database', inp,
+                                      observed={'sql': [e['sql'] for e in writes][:4]}, expected='no write', key='stale-arg:wrote:' + key_call)
+                    real = {'error': 'TransactionError', 'why': 'mixed'} if (err == 'TransactionError' and 'mix objects' in msg) else {'error': err or 'no-error', 'msg': msg[:80]}
+                    pending.append(({'op': 'step', 'world': pre, 'obj': s_i, 'opr': {'k': 'staleArg'}, 'ambient': True}, real, post,
+                                    dict(inp, obj=s_i), 0))
+
+
+def required_kwargs(ent, skip=()):
+    return {a.name: 1 for a in ent._attrs_ if a.is_required and not a.is_collection and not a.reverse and a.pk_offset is None and not a.is_discriminator and a.name not in skip}
+
+def new_object(E, ent, kw):
+    kw = dict(required_kwargs(ent, skip=tuple(kw)), **kw)
+    for a in ent._attrs_:      # required references other than the one under test: a live object
+        if a.is_required and a.reverse and not a.is_collection and a.name not in kw:
+            kw[a.name] = {E.G: lambda: E.G[2]}[a.py_type]()
+    return ent(**kw)
+
+
 def explore(ctx, E, scripts, stricts, ambients, target_limit=None, ambient_scripts=None):
     """returns the list of pending model checks: (request, real outcome, real post-state, case)"""
     pending = []
@@ -803,6 +888,8 @@ def run(ctx):
         # quick tier: the variant 'inside a NEW db_session' for a seed-chosen half of the scripts (all of them in the thorough tier)
         amb = None if ctx.thorough else set(ctx.rng.sample([n for n, _ in scripts], (len(scripts) + 1) // 2))
         pending = explore(ctx, E, scripts, [False, True], [False, True], target_limit=None if ctx.thorough else 5, ambient_scripts=amb)
+        stale_scripts = scripts if ctx.thorough else [sc for sc in scripts if sc[0] in ('full', 'created_graph', 'delete', 'one', 'subclass')]
+        stale_arguments(ctx, E, stale_scripts, pending, per_entity=3 if ctx.thorough else 2)
         check_model(ctx, pending)
         witnesses(ctx, E)
         witness_json(ctx, E)
